@@ -741,7 +741,7 @@ func (f *FS) truncNode(n *node, size int64) syscall.Errno {
 		return syscall.EFBIG
 	}
 	n.data = resize(n.data, size)
-	n.durable = resize(n.durable, min64(size, int64(len(n.durable)))) // shrinking is durable at once; growth is volatile
+	n.durable = resize(n.durable, size) // a size change is metadata: durable when it returns (stated assumption of C22)
 	n.mtime = f.now()
 	return 0
 }
